@@ -4,6 +4,7 @@ import (
 	"encoding/json"
 	"fmt"
 	"os"
+	"path/filepath"
 	"strings"
 
 	"verifharness/vkit"
@@ -94,6 +95,13 @@ func pctClass(h *History, o Op) string {
 func runC19(c *vkit.Ctx, i int, h *History) {
 	r := c.Rand("run", i)
 	s := NewSess("c19")
+	if i%5 == 1 {
+		// the snapshot tree lies below the directory the process was started in and the tests
+		// change the working directory (t.Chdir, os.Chdir) between calls: an ordinary build
+		// addresses its files by absolute paths, so nothing may change
+		s.Close()
+		s = NewSessBelowStartDir("c19")
+	}
 	defer s.Close()
 	if i%4 == 3 {
 		// the snapshot directory does not exist yet (and may contain a percent sign): only a
@@ -154,6 +162,22 @@ func runC19(c *vkit.Ctx, i int, h *History) {
 			edits++
 			c.Count("foreign_edits_between_calls", 1)
 		}
+	}
+	if i%5 == 1 {
+		cr := c.Rand("chdir", i)
+		edit := s.BeforeStep
+		s.BeforeStep = func(o Op) {
+			if edit != nil {
+				edit(o)
+			}
+			if cr.IntN(3) == 0 {
+				to := []string{"/", s.Root, os.TempDir(), startDir, filepath.Dir(startDir)}[cr.IntN(5)]
+				if os.Chdir(to) == nil {
+					c.Count("working_directory_changes_between_calls", 1)
+				}
+			}
+		}
+		h.Classes["working-directory-changes-between-calls"] = true
 	}
 	report := func(phase string) func(o Op, res StepResult) bool {
 		return func(o Op, res StepResult) bool {
